@@ -291,7 +291,7 @@ func (p *poller) readWriteLoop() {
 								// would race with (and usually beat) the read task, which
 								// would then drop the input. Let the task close instead.
 								if ev.Events&epollEventsError != 0 &&
-									ev.Events&(syscall.EPOLLERR|syscall.EPOLLHUP) == 0 {
+									ev.Events&syscall.EPOLLERR == 0 {
 									c.deferCloseToReadTask()
 									readPending = true
 								}
@@ -339,7 +339,7 @@ func (p *poller) readWriteLoop() {
 						// has not been read completely yet. Level-triggered epoll
 						// reports the fd again: read the rest first, close then.
 						if readPending && (g.EpollMod == EPOLLLT || asyncReadEnabled) &&
-							ev.Events&(syscall.EPOLLERR|syscall.EPOLLHUP) == 0 {
+							ev.Events&syscall.EPOLLERR == 0 {
 							continue
 						}
 						err := error(io.EOF)
